@@ -154,7 +154,7 @@ def _prelude(spec, ctx):
         storage.release()
 
 
-def run_once_serial(cfg, *, max_workers=None, prelude=False):
+def run_once_serial(cfg, *, max_workers=None, prelude=False, around_run=None):
     """Run one E2 configuration on the real SerialRunner under the spy."""
     from .e2 import Obs
     spec = cfg.spec
@@ -172,8 +172,10 @@ def run_once_serial(cfg, *, max_workers=None, prelude=False):
         req = [built.fresh(i) if fr else built.canon[i] for i, fr in cfg.requested]
         lab = labtech.Lab(storage=storage, runner_backend=backend, continue_on_failure=cfg.cof,
                           notebook=False, context=ctx, max_workers=max_workers)
+        import contextlib
         try:
-            res = lab.run_tasks(req, bust_cache=cfg.bust_cache, disable_progress=True, disable_top=True)
+            with (around_run(backend) if around_run is not None else contextlib.nullcontext()):
+                res = lab.run_tasks(req, bust_cache=cfg.bust_cache, disable_progress=True, disable_top=True)
             outcome = ('return', res)
         except Spin as e:
             outcome = ('spin', e)
